@@ -34,7 +34,7 @@ class Unit:
                  entry=None, loops=None, kind="P", tier="quick", timeout=300,
                  unwind=None, unwindset=(), flags=(), defines=(), leak=False,
                  reach=0, note="", bound="", assumed=(), solver=None, extra_src=(),
-                 nochecks=False, rec=False, objbits=10, shards=1):
+                 nochecks=False, rec=False, objbits=10, shards=1, late_unwind=None, resplit=0, drop=(), unwind_cut=()):
         self.name = name
         # props: {property_id: regex over obligation names that count for it}
         self.props = props if isinstance(props, dict) else {p: ".*" for p in props}
@@ -62,6 +62,10 @@ class Unit:
         self.rec = rec
         self.objbits = objbits
         self.shards = shards
+        self.late_unwind = late_unwind
+        self.resplit = resplit
+        self.drop = list(drop)
+        self.unwind_cut = list(unwind_cut)
 
 
 def load_units():
@@ -154,6 +158,28 @@ def parse_cbmc_text(text):
     return results, msgs, status
 
 
+_SPEC_LINES = {}
+
+
+def is_reach_ensures(x):
+    """A must-fail postcondition written REACH_ENSURES(cond) in a spec header
+    (only compiled into the unit that enforces that very contract)."""
+    if ".postcondition." not in x.get("property", ""):
+        return False
+    loc = x.get("sourceLocation", {})
+    f, ln = loc.get("file", ""), loc.get("line", "")
+    if not f.endswith(".spec.h") or not ln:
+        return False
+    if f not in _SPEC_LINES:
+        try:
+            _SPEC_LINES[f] = open(f).read().splitlines()
+        except Exception:
+            _SPEC_LINES[f] = []
+    L = _SPEC_LINES[f]
+    i = int(ln) - 1
+    return 0 <= i < len(L) and "REACH_ENSURES(" in L[i]
+
+
 def run_unit(u, scratch, want_trace=True):
     """Returns a dict describing the outcome of one proof unit."""
     r = {
@@ -206,6 +232,8 @@ def run_unit(u, scratch, want_trace=True):
         extra_tus.append(w)
     defs = ["-D" + GUARD, '-DVERIF_SRC="%s"' % inc_src, '-DVERIF_REPO_LIB="%s/lib"' % REPO]
     defs += ["-D" + x for x in u.defines]
+    if u.enforce:
+        defs.append("-DVERIF_ENFORCE_" + u.enforce)
     cmd = ["goto-cc", "-I" + os.path.join(REPO, "include"), "-I" + os.path.join(REPO, "lib"),
            "-I" + os.path.join(VERIF, "contracts"), "-I" + os.path.join(VERIF, "harness")] + defs + \
           ["--function", u.entry, os.path.join(VERIF, "harness", u.harness)] + extra_tus + ["-o", gb]
@@ -214,7 +242,55 @@ def run_unit(u, scratch, want_trace=True):
         r["reason"] = "compile error (goto-cc): " + (err.strip().splitlines()[-1] if err.strip() else "timeout")
         r["detail"] = err[-3000:]
         return r
+    # Loops that carry no loop contract are unwound BEFORE the contract
+    # instrumentation (DFCC sizes its write sets statically and cannot see
+    # through a loop); --unwinding-assertions turns an insufficient bound
+    # into a failed obligation, so a passing unit is complete for those loops.
+    if u.drop:
+        # bodies of functions that are irrelevant to the unit and that trip
+        # goto-instrument (e.g. the stdio callback tables of ov_open) are removed
+        gbd = os.path.join(d, "u.d.gb")
+        cmd = ["goto-instrument"]
+        for f in u.drop:
+            cmd += ["--remove-function-body", f]
+        cmd += [gb, gbd]
+        rc, out, err, dt, to = run(cmd, 600, log)
+        if rc != 0 or to:
+            r["reason"] = "goto-instrument --remove-function-body failed"
+            r["detail"] = (out + err)[-3000:]
+            return r
+        gb = gbd
+    if u.unwind_cut:
+        # BOUNDED ONLY: these loops are cut after N iterations WITHOUT an
+        # unwinding assertion (paths that iterate further are not explored);
+        # only allowed in kind "B" units, the bound is stated in u.bound
+        gbc = os.path.join(d, "u.c.gb")
+        cmd = ["goto-instrument", "--unwindset", ",".join(u.unwind_cut), gb, gbc]
+        rc, out, err, dt, to = run(cmd, 600, log)
+        if rc != 0 or to or u.kind != "B":
+            r["reason"] = "goto-instrument --unwindset (cut) failed or unit not labelled B"
+            r["detail"] = (out + err)[-3000:]
+            return r
+        gb = gbc
+    if u.unwind is not None or u.unwindset:
+        gbu = os.path.join(d, "u.u.gb")
+        cmd = ["goto-instrument"]
+        if u.unwindset:
+            cmd += ["--unwindset", ",".join(u.unwindset)]
+        if u.unwind is not None:
+            cmd += ["--unwind", str(u.unwind)]
+        cmd += ["--unwinding-assertions", gb, gbu]
+        rc, out, err, dt, to = run(cmd, 600, log)
+        if rc != 0 or to:
+            r["reason"] = "goto-instrument --unwind failed: " + (err.strip().splitlines()[-1] if err.strip() else "timeout")
+            r["detail"] = (out + err)[-3000:]
+            return r
+        gb = gbu
+    plain = (not u.enforce and not u.replace and not u.loops)
     cmd = ["goto-instrument", "--no-malloc-may-fail", "--dfcc", u.entry]
+    if plain:
+        # harness-only unit (no contract involved): no DFCC instrumentation
+        cmd = ["goto-instrument", "--no-malloc-may-fail"]
     if u.enforce:
         cmd += ["--enforce-contract-rec" if u.rec else "--enforce-contract", u.enforce]
     for g in u.replace:
@@ -231,12 +307,8 @@ def run_unit(u, scratch, want_trace=True):
     flags = [] if u.nochecks else list(BASE_CHECKS)
     if u.leak:
         flags.append("--memory-leak-check")
-    if u.unwind is not None:
-        flags += ["--unwind", str(u.unwind)]
-    if u.unwindset:
-        flags += ["--unwindset", ",".join(u.unwindset)]
-    if u.unwind is not None or u.unwindset:
-        flags.append("--unwinding-assertions")
+    if u.late_unwind is not None:
+        flags += ["--unwind", str(u.late_unwind), "--unwinding-assertions"]
     flags += ["--object-bits", str(u.objbits), "--no-malloc-may-fail"]
     flags += u.flags
     if u.solver:
@@ -286,7 +358,11 @@ def run_unit(u, scratch, want_trace=True):
         name = x.get("property", "?")
         desc = x.get("description", "")
         st = x.get("status", "")
-        if desc.startswith("VREACH"):
+        if u.unwind_cut and any(re.search(r"unwinding assertion loop %s$" % c.split(":")[0].rsplit(".", 1)[1], desc) and
+                                x.get("sourceLocation", {}).get("function", "") == c.split(":")[0].rsplit(".", 1)[0]
+                                for c in u.unwind_cut):
+            continue  # a deliberately cut loop of a bounded (B) unit: not an obligation
+        if desc.startswith("VREACH") or is_reach_ensures(x):
             if st == "FAILURE":
                 reach_hit += 1
             continue
@@ -365,6 +441,22 @@ def run_sharded(u, cbmc, flags, gbi, d, log):
         return r
     with ThreadPoolExecutor(max_workers=len(groups)) as ex:
         rs = list(ex.map(one, groups))
+    # shards that ran out of time are re-split (up to u.resplit rounds) so
+    # that a few slow obligations do not hide the others
+    for _round in range(u.resplit):
+        slow = [g for r, g in zip(rs, groups) if r[4]]
+        if not slow:
+            break
+        keep = [(r, g) for r, g in zip(rs, groups) if not r[4]]
+        names2 = [n for g in slow for n in g]
+        if len(names2) <= len(slow):
+            break
+        k = min(16, len(names2))
+        g2 = [names2[i::k] for i in range(k)]
+        with ThreadPoolExecutor(max_workers=k) as ex:
+            r2 = list(ex.map(one, g2))
+        rs = [x[0] for x in keep] + r2
+        groups = [x[1] for x in keep] + g2
     to = False
     merged, status, seen = [], "success", False
     for r in rs:
@@ -597,6 +689,7 @@ def main():
     un.add_argument("--keep", action="store_true")
     un.add_argument("--trace", action="store_true")
     un.add_argument("--timeout", type=int)
+    un.add_argument("--resplit", type=int)
     sub.add_parser("list")
     a = ap.parse_args()
     units = load_units()
@@ -617,6 +710,9 @@ def main():
             if a.timeout:
                 for u in sel:
                     u.timeout = a.timeout
+            if a.resplit is not None:
+                for u in sel:
+                    u.resplit = a.resplit
             with ThreadPoolExecutor(max_workers=NCPU) as ex:
                 res = list(ex.map(lambda u: run_unit(u, scratch, want_trace=a.trace), sel))
             for r in res:
